@@ -3,13 +3,14 @@ NEXT Next
 CONSTANTS
   NP = 2
   NS = 1
-  NB = 1
+  NB = 2
   MaxDepth = 3
   UseSystematic = FALSE
   UsePreludes = FALSE
   WKey = 1
   WEnv = 1
   WLoad = 1
+  WSig = 1
   WDecode = 1
 INVARIANT Valid
 INVARIANT Steps
